@@ -27,12 +27,14 @@ func init() {
 				"'above the limit' exactly when that stamp is set and not older than the interval.",
 			NotCovered: "that the ring buffer of golibs behaves as a ring (trusted), so that R7's structure (limit+1 slots, push before read, comparison with " +
 				"the interval) yields an exact sliding window; the expiry timing of the backoff tables (temporal facts outside static reach); the allowlist's own matching.",
-			Rules: map[string]string{"C09-R27": "NewBackoff computes the lifetime of the cache of request windows from both counting intervals (as well as the backoff period): a window is never forgotten while events in it still count, whatever the relation between ratelimit.backoff_period and the intervals", "C09-R26": "NewProfileStorage copies every setting into the field of its own meaning (shared with C14-R6): the response size estimate that the per-profile rate limiter divides by is the configured estimate, not the profile size limit", "C09-R25": "the pooled request information is given this request's device result on every path (shared with C03-R10): the per-profile rate limit and access settings applied are never those of the previous request that used the object", "C09-R24": "the generic rate-limit middleware of module dnsserver takes the client address through netutil.NetAddrToAddrPort too (which unmaps IPv4-mapped addresses): on a dual-stack socket an IPv4 client is keyed, counted and allowlisted as an IPv4 client", "C09-R23": "Backoff.isBackoff: a subnet is in backoff exactly when it has a hit counter whose value has reached the configured count (>=, the count-th over-limit event included)", "C09-R22": "the sliding window of a subnet is kept while the subnet is active: on every path of Backoff.hasHitRateLimit to the counting step the window is (re)stored in the expiring cache, so that its lifetime runs from the last use and not from the first", "C09-R21": "every key of the ratelimit section of the documented sample configuration config.dist.yaml (refuseany, counts, intervals, key lengths, allowlist, ...) is named by a yaml tag of the configuration structure: a documented setting that the decoder ignores leaves the limiter without it", "C09-R20": "backendpb.RateLimiter.Refresh replaces the allowlist with what the backend sent on every successful refresh, an empty list included (a subnet removed from the allowlist stops being exempt); a failed call leaves it alone", "C09-R19": "the rate-limiting middleware takes the peer address through netutil.NetAddrToAddrPort, which unmaps IPv4-mapped IPv6 addresses", "C09-R18": "serveDNSMsgInternal writes nothing when the handler returns nil without a response, so a query dropped by the limiter stays unanswered (tables shared with C01-R2 and C01-R3)", "C09-R17": "every path of the rate-limiting middleware that serves a plain-DNS query has asked the global limiter (the only implementation of refuse_any and of the allowlist) first", "C09-R16": "subnets converted between the backend, the internal and the file-cache representations keep their prefix length as it is (a /0 stays a /0)", "C09-R15": "NewBackoff: hit counters expire after Duration; request counters are cleaned up every Period and expire after Period or a maximum that C09-R27 decides", "C09-R14": "configuration objects handed to constructors that keep them are built per server (hand-off rule shared with C15-R6)", "C09-RC": "class rules (error chains, shadowed results, character classes, crossed arguments, pool constructors, array pools, loop completeness, loop-carried buffers, replacing setters, complete clones, Grow arithmetic, pooled-buffer escape, sorted searches, fresh decode targets, per-iteration objects, whole-message copies, codec guards) over the packages this property rests on", "C09-R13": "backendpb.RateLimitSettings.toInternal: the profile's own limiter exactly when present and enabled (an empty subnet list is not a reason to fall back to the global one)", "C09-R12": "DynamicAllowlist.IsAllowed: exempt exactly when some persistent or dynamic subnet contains the address; the dynamic part is read under the lock; constructor field map", "C09-R11": "list setters (DynamicAllowlist.Update, …) replace the list: no append onto the previous contents of the same field", "C09-R1": "middleware gate tables", "C09-R2": "limiter check order, family selection, keying", "C09-R3": "profile limiter table",
+			Rules: map[string]string{"C09-R28": "profiledb.setProfiles installs the delivered profiles unchanged (no store into a field of agd.Profile): a profile's rate limiter, with its limit and client subnets, is the one built from the latest synchronisation", "C09-R27": "NewBackoff computes the lifetime of the cache of request windows from both counting intervals (as well as the backoff period): a window is never forgotten while events in it still count, whatever the relation between ratelimit.backoff_period and the intervals", "C09-R26": "NewProfileStorage copies every setting into the field of its own meaning (shared with C14-R6): the response size estimate that the per-profile rate limiter divides by is the configured estimate, not the profile size limit", "C09-R25": "the pooled request information is given this request's device result on every path (shared with C03-R10): the per-profile rate limit and access settings applied are never those of the previous request that used the object", "C09-R24": "the generic rate-limit middleware of module dnsserver takes the client address through netutil.NetAddrToAddrPort too (which unmaps IPv4-mapped addresses): on a dual-stack socket an IPv4 client is keyed, counted and allowlisted as an IPv4 client", "C09-R23": "Backoff.isBackoff: a subnet is in backoff exactly when it has a hit counter whose value has reached the configured count (>=, the count-th over-limit event included)", "C09-R22": "the sliding window of a subnet is kept while the subnet is active: on every path of Backoff.hasHitRateLimit to the counting step the window is (re)stored in the expiring cache, so that its lifetime runs from the last use and not from the first", "C09-R21": "every key of the ratelimit section of the documented sample configuration config.dist.yaml (refuseany, counts, intervals, key lengths, allowlist, ...) is named by a yaml tag of the configuration structure: a documented setting that the decoder ignores leaves the limiter without it", "C09-R20": "backendpb.RateLimiter.Refresh replaces the allowlist with what the backend sent on every successful refresh, an empty list included (a subnet removed from the allowlist stops being exempt); a failed call leaves it alone", "C09-R19": "the rate-limiting middleware takes the peer address through netutil.NetAddrToAddrPort, which unmaps IPv4-mapped IPv6 addresses", "C09-R18": "serveDNSMsgInternal writes nothing when the handler returns nil without a response, so a query dropped by the limiter stays unanswered (tables shared with C01-R2 and C01-R3)", "C09-R17": "every path of the rate-limiting middleware that serves a plain-DNS query has asked the global limiter (the only implementation of refuse_any and of the allowlist) first", "C09-R16": "subnets converted between the backend, the internal and the file-cache representations keep their prefix length as it is (a /0 stays a /0)", "C09-R15": "NewBackoff: hit counters expire after Duration; request counters are cleaned up every Period and expire after Period or a maximum that C09-R27 decides", "C09-R14": "configuration objects handed to constructors that keep them are built per server (hand-off rule shared with C15-R6)", "C09-RC": "class rules (error chains, shadowed results, character classes, crossed arguments, pool constructors, array pools, loop completeness, loop-carried buffers, replacing setters, complete clones, Grow arithmetic, pooled-buffer escape, sorted searches, fresh decode targets, per-iteration objects, whole-message copies, codec guards) over the packages this property rests on", "C09-R13": "backendpb.RateLimitSettings.toInternal: the profile's own limiter exactly when present and enabled (an empty subnet list is not a reason to fall back to the global one)", "C09-R12": "DynamicAllowlist.IsAllowed: exempt exactly when some persistent or dynamic subnet contains the address; the dynamic part is read under the lock; constructor field map", "C09-R11": "list setters (DynamicAllowlist.Update, …) replace the list: no append onto the previous contents of the same field", "C09-R1": "middleware gate tables", "C09-R2": "limiter check order, family selection, keying", "C09-R3": "profile limiter table",
 				"C09-R4": "window counter under its lock", "C09-R9": "builder wiring: the configured allowlist is the persistent part of the dynamic allowlist", "C09-R8": "the dynamic allowlist is replaced only after a successful load (a failed refresh keeps the previous allowlist)", "C09-R7": "window counter structure: the ring holds limit+1 time stamps; every event (also one that is dropped) is pushed before the oldest one is read; the event is above the limit iff the oldest kept stamp is set and within the interval", "C09-R5": "every estimated response is counted", "C09-R6": "configuration-to-limiter field map (each family's count, interval and key length under its own name)"},
 		}})
 }
 
 func runC09(c *an.Ctx) {
+	c.Floor("C09-R28", 1)
+	c09SetProfilesStoresAsDelivered(c, "C09-R28")
 	c.Floor("C09-R27", 1)
 	c09WindowLifetimeCoversInterval(c, "C09-R27")
 	c.Floor("C09-R26", 1)
